@@ -240,7 +240,14 @@ def _call(item: Any) -> Any:
         return _WORK(item)
     except CaseTimeout:
         return {"n": 1, "undecided": [(repr(item)[:200], "timeout")]}
-    except Exception:  # a harness error must never look like silence
+    except Exception as ex:  # a harness error must never look like silence
+        tb = traceback.extract_tb(ex.__traceback__)
+        if tb and "/symplyphysics/" in tb[-1].filename and "/verif/" not in tb[-1].filename:
+            # the library itself crashed on an explored case: that is a finding, not a harness bug
+            where = f"{os.path.basename(tb[-1].filename)}:{tb[-1].lineno}"
+            return {"n": 1, "violations": [(f"crash:{type(ex).__name__}@{where}:{repr(item)[:80]}",
+                f"library raised {type(ex).__name__}: {short(ex, 200)} at {where} while exploring "
+                f"{repr(item)[:200]}", {"item": repr(item)[:500], "crash": True})]}
         return {"n": 0, "harness_error": traceback.format_exc(), "item": repr(item)[:300]}
 
 
